@@ -3,6 +3,9 @@ package props
 import (
 	"fmt"
 
+	"github.com/unravelin/null"
+	"reflect"
+
 	"github.com/philpearl/plenc/plenccodec"
 
 	"verif/mc"
@@ -15,9 +18,14 @@ func init() {
 		Rule: "every pointee type X (all leaves, a struct, an empty struct, []int, []string) in every presence-carrying position (pointer field, null.X field, pointer / null.X map value under zero and non-zero keys, **X, pointer to struct holding pointers, map[K]*struct, slice of structs with pointer and null fields), each between a preceding and a following sibling, " +
 			"x values {absent, present zero, present non-zero, present but encoding to nothing} x 2-4 configurations. Oracles: presence and pointee after the round trip equal the reference expectation; a plain zero field leaves no tag in the bytes; ExplicitPresence in the Descriptor is set for exactly the pointer / null typed struct fields and map values. non-trivial = value with at least one present pointer or valid null",
 		Assumptions: []string{"slice-element descriptors are not judged (the statement lists fields, map entries and null types)"},
-		Work:        func(c *mc.Ctx) { enumItems(c, c09Items(), c09Case) },
+		Work: func(c *mc.Ctx) {
+			enumItems(c, c09Items(), c09Case)
+			if c.Owns(0) {
+				c09MapKeyPresence(c)
+			}
+		},
 		Post: func(a *mc.Agg) []string {
-			return needDims(a, "pos:ptr-field", "pos:null-field", "pos:map-ptr", "pos:map-null", "pos:ptrptr", "pos:nested", "pos:slice-struct", "descriptor-flags", "plain-zero-no-tag")
+			return needDims(a, "pos:ptr-field", "pos:null-field", "pos:map-ptr", "pos:map-null", "pos:ptrptr", "pos:nested", "pos:slice-struct", "descriptor-flags", "plain-zero-no-tag", "map-key-presence")
 		},
 	})
 }
@@ -236,4 +244,75 @@ func c09Case(c *mc.Ctx, cfg ref.Cfg, it ref.Item, v ref.V, vs string, undoc stri
 			c.Sample(map[string]string{"cfg": cfg.String(), "type": it.T.String(), "value": vs, "bytes": hx(data)})
 		}
 	})
+}
+
+// c09MapKeyPresence: presence inside a struct used as a MAP KEY, over several entries of one map.
+// The decoder re-uses one scratch key for all entries; a key field that is absent (invalid, zero)
+// in one entry must read back absent whatever the entry decoded just before it held there. Every
+// non-empty subset of four keys {(a,-) (-,b) (a,b) (-,-)} for null-typed, plain and string fields.
+func c09MapKeyPresence(c *mc.Ctx) {
+	type nk struct {
+		A null.Int    `plenc:"1"`
+		B null.String `plenc:"2"`
+	}
+	type ik struct {
+		A int `plenc:"1"`
+		B int `plenc:"2"`
+	}
+	type sk struct {
+		A string `plenc:"1"`
+		B string `plenc:"2"`
+	}
+	type holder struct {
+		N  map[nk]int    `plenc:"1"`
+		I  map[ik]string `plenc:"2"`
+		S  map[sk]*int   `plenc:"3"`
+		NP map[nk]int    `plenc:"4,proto"`
+		Z  int           `plenc:"9"`
+	}
+	if !c.Begin(`{"set":"map-key-presence"}`) {
+		return
+	}
+	c.AddEvals(-1)
+	c.Dim("map-key-presence")
+	one := 1
+	nks := []nk{{A: null.IntFrom(5)}, {B: null.StringFrom("b")}, {A: null.IntFrom(0), B: null.StringFrom("")}, {}}
+	iks := []ik{{A: 5}, {B: 6}, {A: 7, B: 8}, {}}
+	sks := []sk{{A: "a"}, {B: "b"}, {A: "x", B: "y"}, {}}
+	for _, cfg := range []ref.Cfg{{}, {ProtoArrays: true, ProtoTime: true}} {
+		for mask := 1; mask < 16; mask++ {
+			c.AddEvals(1)
+			c.Count("states", 1)
+			c.AddNonTrivial(1)
+			sig := fmt.Sprintf("%s|map-key-presence|", cfg)
+			c.Guard(sig, func() {
+				v := holder{N: map[nk]int{}, I: map[ik]string{}, S: map[sk]*int{}, NP: map[nk]int{}, Z: 1}
+				for i := 0; i < 4; i++ {
+					if mask&(1<<i) != 0 {
+						v.N[nks[i]], v.I[iks[i]], v.S[sks[i]], v.NP[nks[i]] = i+1, fmt.Sprint("v", i), &one, i+1
+					}
+				}
+				p := NewPlenc(cfg)
+				// several encodings: the entry order of a map varies from call to call
+				for try := 0; try < 6; try++ {
+					data, err := p.Marshal(nil, &v)
+					if err != nil {
+						c.Violation(sig+"marshal-error", err.Error())
+						return
+					}
+					var got holder
+					if err := p.Unmarshal(data, &got); err != nil {
+						c.Violation(sig+"unmarshal-error", err.Error()+" data="+hx(data))
+						return
+					}
+					c.Ops(2)
+					if !reflect.DeepEqual(got, v) {
+						c.Violation(sig+"key-presence-leaks-between-entries", fmt.Sprintf("keys %04b: put in %s, got out %s data=%s", mask, canon(reflect.ValueOf(v)), canon(reflect.ValueOf(got)), hx(data)))
+						return
+					}
+				}
+				c.Outcome("ok")
+			})
+		}
+	}
 }
